@@ -141,6 +141,15 @@ func (t *connectTransaction) WillTopic(snWillTopic *snPkts1.WillTopic) error {
 		t.state = awaitingConnack
 		return t.handler.mqttSend(t.mqConnect)
 	}
+	if snWillTopic.QOS > 2 {
+		// A MQTT CONNECT with will QoS 3 is malformed [MQTT-3.1.2-14].
+		if err := t.SendConnack(snPkts1.RC_NOT_SUPPORTED); err != nil {
+			return err
+		}
+		err := fmt.Errorf("invalid will QoS: %d", snWillTopic.QOS)
+		t.Fail(err)
+		return err
+	}
 	t.mqConnect.WillQos = snWillTopic.QOS
 	t.mqConnect.WillRetain = snWillTopic.Retain
 	t.mqConnect.WillTopic = snWillTopic.WillTopic
